@@ -16,7 +16,7 @@ from . import core, model_io as M, seams
 from .pool import CHORD_LABELS
 
 PROP = "C14"
-RUNS = {"quick": 400, "thorough": 15000}
+RUNS = {"quick": 3000, "thorough": 80000}
 RUN_TIMEOUT = 240.0
 VALID, INVALID, UNSPEC = "VALID", "INVALID_CHECKED", "UNSPEC"
 ASSUMPTIONS = [
@@ -58,6 +58,8 @@ def events_class(ev):
         return INVALID, "events not sorted"
     if ev.size and float(ev.min()) < 0:
         return UNSPEC, "negative event time"
+    if ev.size and float(ev.max()) > HORIZON:
+        return UNSPEC, "time beyond the harness horizon (beat.p_score correlates 100 Hz impulse trains: cost ~ duration^2)"
     return VALID, ""
 
 
@@ -80,6 +82,24 @@ def contiguous(iv):
     import numpy as np
 
     return iv.shape[0] >= 1 and bool(np.all(iv[1:, 0] == iv[:-1, 1]))
+
+
+def _root(label):
+    """Pitch class of a (valid) chord label's root as a semitone, or the label itself for N / X."""
+    if label in ("N", "X"):
+        return label
+    head = label.split(":")[0].split("/")[0]
+    pc = {"C": 0, "D": 2, "E": 4, "F": 5, "G": 7, "A": 9, "B": 11}.get(head[:1])
+    if pc is None:
+        return label
+    return (pc + head.count("#") - head.count("b")) % 12
+
+
+def contiguous_or_overlapping(iv):
+    """sorted by start, no gaps (overlaps allowed)"""
+    import numpy as np
+
+    return iv.shape[0] >= 1 and bool(np.all(iv[1:, 0] <= iv[:-1, 1])) and bool(np.all(np.diff(iv[:, 0]) >= 0))
 
 
 def chord_label_class(lab):
@@ -312,7 +332,16 @@ def a_events(mod_name, metrics, trim=False):
                                   for m in metrics]
         elif c.verdict == INVALID:
             c.must_raise = [(n, t, c.why) for n, t in calls]
-            c.type_only = [ev]
+            # evaluate(): onset has no pre-processing; beat drops beats before 5 s first -- if the offence
+            # survives that documented trimming, evaluate() must reject it too
+            if not trim:
+                c.must_raise.append((ev[0], ev[1], c.why))
+            else:
+                rt, et = r[r >= 5.0], e[e >= 5.0]
+                if combine(events_class(rt), events_class(et))[0] == INVALID:
+                    c.must_raise.append((ev[0], ev[1], c.why + " (still there after trimming beats before 5 s)"))
+                else:
+                    c.type_only = [ev]
         return c
     return adapt
 
@@ -430,7 +459,22 @@ def a_chord(me, d):
     if ivv == INVALID or overlap(ri) or overlap(ei):
         w = why or "overlapping chord intervals"
         c.must_raise += [(n, t, w) for n, t in seg_calls]
-        c.type_only.append(ev)
+        # evaluate() crops the estimate to the reference span first; an overlap in the reference, or an
+        # overlap between two estimated intervals lying inside the reference span, survives that
+        inside = False
+        # (evaluate() also merges consecutive intervals carrying the same chord, which removes an overlap
+        # between them: only overlaps between chords with different roots count)
+        ref_hard = ivv == VALID and any(ri[k, 1] > ri[k + 1, 0] and _root(rl[k]) != _root(rl[k + 1]) for k in range(ri.shape[0] - 1))
+        if ivv == VALID and overlap(ei) and not overlap(ri):
+            lo, hi = ri.min(), ri.max()
+            for k in range(ei.shape[0] - 1):
+                if ei[k, 1] > ei[k + 1, 0] and ei[k, 0] >= lo and ei[k + 1, 1] <= hi and ei[k, 1] <= hi and ei[k + 1, 0] >= lo \
+                        and _root(el[k]) != _root(el[k + 1]):
+                    inside = True
+        if ivv == VALID and all(x == VALID for x in lab_cls) and contiguous_or_overlapping(ri) and (ref_hard or inside):
+            c.must_raise.append((ev[0], ev[1], w + " (not removed by cropping to the reference span)"))
+        else:
+            c.type_only.append(ev)
         c.verdict, c.why = INVALID, c.why + "; " + w
         return c
     if any(x != VALID for x in lab_cls):
@@ -512,8 +556,11 @@ def a_melody(me, d):
         c.verdict, c.why = VALID, "empty melody series"
         c.must_return = [("melody.evaluate[empty series]", lambda: ml.evaluate(rt, rf, et, ef))]
         return c
-    if np.any(np.diff(rt) <= 0) or np.any(np.diff(et) <= 0) or rt[0] < 0 or et[0] < 0:
-        c.verdict, c.why = UNSPEC, "times not strictly increasing / negative (no validator documented)"
+    if np.any(np.diff(rt) <= 1e-6) or np.any(np.diff(et) <= 1e-6) or rt[0] < 0 or et[0] < 0:
+        c.verdict, c.why = UNSPEC, "times not clearly increasing (closer than 1 us) / negative (no validator documented)"
+        return c
+    if 0 < rt[0] <= 1e-6 or 0 < et[0] <= 1e-6:
+        c.verdict, c.why = UNSPEC, "first time stamp closer than 1 us to 0"
         return c
     if rt[-1] > HORIZON or et[-1] > HORIZON:
         c.verdict, c.why = UNSPEC, "time beyond the harness horizon"
@@ -556,8 +603,8 @@ def a_multipitch(me, d):
     if c.verdict == INVALID:
         c.must_raise = [(n, t, c.why) for n, t in calls]
     elif c.verdict == VALID:
-        if np.any(np.diff(rt) <= 0) or np.any(np.diff(et) <= 0):
-            c.verdict, c.why = UNSPEC, "duplicate time stamps (resampling undefined)"
+        if np.any(np.diff(rt) <= 1e-6) or np.any(np.diff(et) <= 1e-6):
+            c.verdict, c.why = UNSPEC, "time stamps closer than 1 us (resampling undefined)"
             return c
         c.must_return = calls
     return c
